@@ -31,7 +31,11 @@ pub fn plans(prop: &str) -> Vec<Plan> {
         "C17" => vec![r(RProp::C17Scalar, 150_000, 3_000_000), r(RProp::C17Pair, 150_000, 3_000_000), h(HProp::C17, 100_000, 2_000_000)],
         "C18" => vec![d(DProp::C18, false, 200_000, 4_000_000), r(RProp::C18Scalar, 50_000, 1_000_000), r(RProp::C18Pair, 50_000, 1_000_000), h(HProp::C18, 100_000, 2_000_000)],
         "C19" => vec![Plan { scenario: Box::new(crate::drv_rayon::PScenario) as Box<dyn Scenario>, runs_quick: 60_000, runs_thorough: 1_500_000 }],
-        "C20" => vec![r(RProp::C20Scalar, 100_000, 2_000_000), r(RProp::C20Pair, 100_000, 2_000_000)],
+        "C20" => vec![
+            r(RProp::C20Scalar, 100_000, 2_000_000),
+            r(RProp::C20Pair, 100_000, 2_000_000),
+            Plan { scenario: Box::new(crate::concat::CatScenario) as Box<dyn Scenario>, runs_quick: 100_000, runs_thorough: 2_000_000 },
+        ],
         _ => vec![],
     }
 }
